@@ -109,17 +109,18 @@ static const char *c_inputs[][2] = {
    "bad: return 1;\n"
    "}\n"},
   {"funcptr",
+   "#include <stdarg.h>\n#include <stddef.h>\n"
    "int printf (const char *, ...);\n"
    "typedef int (*op_t) (int, int);\n"
    "static int add (int a, int b) { return a + b; }\n"
    "static int mul (int a, int b) { return a * b; }\n"
    "static int apply (op_t f, int a, int b) { return f (a, b); }\n"
-   "static int vsum (int n, ...) { __builtin_va_list ap; int s = 0; __builtin_va_start (ap, n); while (n-- > 0) s += __builtin_va_arg (ap, int); __builtin_va_end (ap); return s; }\n"
+   "static int vsum (int n, ...) { va_list ap; int s = 0; va_start (ap, n); while (n-- > 0) s += va_arg (ap, int); va_end (ap); return s; }\n"
    "static const op_t ops[] = {add, mul};\n"
    "_Static_assert (sizeof (long) == 8, \"lp64\");\n"
-   "int main (void) { char buf[16]; int i; for (i = 0; i < 16; i++) buf[i] = (char) i;\n"
+   "int main (void) { char buf[16]; int i; size_t z = sizeof (buf); for (i = 0; i < 16; i++) buf[i] = (char) i;\n"
    "  printf (\"%s %d\\n\", \"x\", apply (ops[1], 6, 7));\n"
-   "  return !(apply (ops[0], 2, 3) == 5 && apply (ops[1], 6, 7) == 42 && vsum (3, 1, 2, 3) == 6 && buf[15] == 15); }\n"},
+   "  return !(apply (ops[0], 2, 3) == 5 && apply (ops[1], 6, 7) == 42 && vsum (3, 1, 2, 3) == 6 && buf[15] == 15 && z == 16); }\n"},
   {"empty", "int main (void) { return 0; }\n"},
 };
 
